@@ -643,6 +643,14 @@ pub(crate) fn parse_matcher<'data>(
         skip_comments_and_whitespace(input)?;
         '{'.parse_next(input)?;
 
+        // Symbols at the end of `extern` blocks may omit semicolons, so we need to know whether
+        // there's a semicolon between where we are and the end of the block. Find the end of the
+        // block and its last semicolon once, rather than searching again for every symbol.
+        let block: &[u8] = input;
+        let close_pos = block.windows(2).position(|w| w == b"};");
+        let last_semicolon =
+            close_pos.and_then(|close_pos| block[..close_pos].iter().rposition(|b| *b == b';'));
+
         loop {
             skip_comments_and_whitespace(input)?;
 
@@ -656,14 +664,20 @@ pub(crate) fn parse_matcher<'data>(
                 '}'.parse_next(input)?;
             }
 
-            // Symbols at the end of `extern` blocks may omit semicolons
-            let expect_semicolon = {
-                let remaining = &**input;
-                if let Some(close_pos) = remaining.windows(2).position(|w| w == b"};") {
-                    remaining[..close_pos].contains(&b';')
-                } else {
-                    without_semicolon
+            let offset = block.len() - input.len();
+            let expect_semicolon = match close_pos {
+                Some(close_pos) if offset <= close_pos => {
+                    last_semicolon.is_some_and(|last_semicolon| last_semicolon >= offset)
                 }
+                Some(_) => {
+                    let remaining = &**input;
+                    if let Some(close_pos) = remaining.windows(2).position(|w| w == b"};") {
+                        remaining[..close_pos].contains(&b';')
+                    } else {
+                        without_semicolon
+                    }
+                }
+                None => without_semicolon,
             };
 
             // An `extern` block inside an `extern` block isn't allowed. Say so without parsing the
